@@ -110,13 +110,15 @@ def op_strategies(set_funcs=SET_FUNCS, list_funcs=LIST_FUNCS, symbols=False, loa
         for extra in ("#2", "#3", "#4"):
             ops["payload" + extra] = ops["payload"]
             ops["rename" + extra] = ops["rename"]
+        ops["refbounce"] = progs.op("refbounce", r=st.integers(0, 7), route=st.integers(0, 4))
+        ops["refbounce#2"] = ops["refbounce"]
         ops["symparent"] = progs.op("setparent", k=st.just("sym"), c=idx, p=par)
         ops["refparent"] = progs.op("setparent", k=st.sampled_from(["blk", "prx", "bi", "sec"]), c=idx, p=par)
     return ops
 
 
 FOCUS = [["list.", "listq.", "new"], ["set.", "setq.", "setparent"], ["setparent", "new", "load"],
-         ["rename", "payload", "newsym", "symparent", "refparent"]]
+         ["rename", "payload", "newsym", "symparent", "refparent", "refbounce"]]
 
 
 def cases(max_len=40, only=None, **kw):
